@@ -1214,7 +1214,9 @@ fn check_c14(case: &Case, cfg: &RunCfg, sem: &Sem, res: &RunResult, order: (usiz
         }
         // a soft solvable for which hard ∧ x has no model at all must be absent
         for &x in &case.p.soft {
-            let exempt_ok = sem.sat_with(&[x]);
+            // (with the documented exemption for every directly named soft solvable: an earlier accepted
+            // soft solvable that is, say, locked out may legitimately be what x's requirement is met by)
+            let exempt_ok = sem.sat_with(&[x]) || sem.sat_with_exempt(&[x], &case.p.soft);
             if !exempt_ok && sol.contains(&x) && sem.is_listed(x) && !sem.is_excluded(x) && !sem.is_locked_out(x) {
                 acc.violation(v(
                     "soft-impossible-included",
